@@ -375,7 +375,11 @@ pub fn gen_dict(rng: &mut Rng, cfg: &GenCfg) -> DictSrc {
         (gen_matrix(rng, nr, nl, cfg.cost_mag), String::new(), String::new(), String::new())
     } else {
         let k = if kind == 2 { 8 + rng.below(9) } else { rng.below(12) };
-        let (r, l, c) = gen_bigram(rng, nr, nl, k, cfg.cost_mag);
+        // large magnitudes (profile c01, a fifth of the dictionaries): the raw connector's entries are i32 and may lie far
+        // outside the i16 range of matrix.def; the dual connector keeps small entries (its pre-summed i16 part must not
+        // saturate, see DESIGN 10.2: the template split is hash-order dependent there)
+        let bmag = if cfg.cost_mag > 1000 { if kind == 1 { 2 * cfg.cost_mag } else { 40 } } else { cfg.cost_mag };
+        let (r, l, c) = gen_bigram(rng, nr, nl, k, bmag);
         (String::new(), r, l, c)
     };
     DictSrc {
